@@ -7,10 +7,14 @@ package props
 // is then used on every endpoint and must not crash there either.
 
 import (
+	"crypto/dsa"
+	"crypto/sha1"
+	"crypto/sha256"
 	"encoding/asn1"
 	"encoding/base64"
 	"fmt"
 	"math/big"
+	"os"
 	"runtime"
 	"strings"
 	"sync"
@@ -27,7 +31,7 @@ import (
 	"verif/harness/xt"
 )
 
-const c09Rule = "(1) every single and every pairwise structural edit (delete / duplicate / empty each element and attribute) of valid, fully populated AuthnRequest (signed and unsigned, POST and Redirect), LogoutRequest and SOAP AttributeQuery messages; (2) every SigAlg URI x registered key type x signature blob shape; (3) rapid byte-level mutations and parameter soups on all routed endpoints and methods; (4) single and pairwise structural edits and certificate variants of SP metadata through NewServiceProvider, each registered SP then used on every endpoint. Oracle: no panic. Non-trivial: the submitted payload still decodes (well-formed XML with the expected document element reaches the handler's field accesses) or, for metadata, registration succeeded. Distinct by (family, edit set) / (endpoint, mutation kind)."
+const c09Rule = "(1) every single and every pairwise structural edit (delete / duplicate / empty each element and attribute) of valid, fully populated AuthnRequest (signed and unsigned, POST and Redirect), LogoutRequest and SOAP AttributeQuery messages; (2) every SigAlg URI x registered key type (RSA, ECDSA, Ed25519, DSA - the DSA certificate is hand-assembled DER) x signature blob shape (DER (r,s) of several sizes and signs, a signature that is valid under the DSA key, random bytes, one byte, bad base64, empty); (3) rapid byte-level mutations and parameter soups on all routed endpoints and methods; (4) single and pairwise structural edits and certificate variants of SP metadata through NewServiceProvider, each registered SP then used on every endpoint. Oracle: no panic. Non-trivial: the submitted payload still decodes (well-formed XML with the expected document element reaches the handler's field accesses) or, for metadata, registration succeeded. Distinct by (family, edit set) / (endpoint, mutation kind)."
 
 type C09Case struct {
 	Kind string        `json:"kind"` // http | spmeta
@@ -48,7 +52,9 @@ func c09Spec() world.Spec {
 	art.ACS = []world.ACSSpec{acs(world.BindArtifact, "https://sp5.example/acs/artifact", "0", A)}
 	noslo := stdSP(6)
 	noslo.SLO = nil
-	s.SPs = append(s.SPs, ec, ed, art, noslo)
+	dsaSP := stdSP(7)
+	dsaSP.KeyNames = []string{"sp-dsa"}
+	s.SPs = append(s.SPs, ec, ed, art, noslo, dsaSP)
 	s.Requests = []world.RequestSpec{
 		{ID: "req-pending", AppID: "app-0", RelayState: "rs-pending", ACS: "https://sp0.example/acs/post", Binding: world.BindPost, AuthRequestID: "_authn1"},
 		{ID: "req-done-post", AppID: "app-0", RelayState: "rs-done", ACS: "https://sp0.example/acs/post", Binding: world.BindPost, AuthRequestID: "_authn2", UserID: "uid-0", Done: true},
@@ -365,7 +371,36 @@ func c09SigBlobs() map[string]string {
 		"not-base64":  "!!!not base64!!!",
 		"empty":       "",
 		"der-trailer": der(5, 7) + "AAAA",
+		"dsa-valid":   "@dsa-valid",
 	}
+}
+
+// c09DSASign signs the octets with the sp-dsa key (SHA-256 digest for the dsa-sha256 URI, SHA-1 otherwise), DER (r, s), base64.
+func c09DSASign(octets, alg string) string {
+	var sum []byte
+	if strings.Contains(alg, "sha256") {
+		h := sha256.Sum256([]byte(octets))
+		sum = h[:]
+	} else {
+		h := sha1.Sum([]byte(octets))
+		sum = h[:]
+	}
+	r, s, err := dsa.Sign(c09Rand{}, world.Key("sp-dsa").DSA, sum)
+	if err != nil {
+		panic(err)
+	}
+	b, _ := asn1.Marshal(struct{ R, S *big.Int }{r, s})
+	return base64.StdEncoding.EncodeToString(b)
+}
+
+// c09Rand is a fixed byte stream: the nonce need not be secret here and the run must not depend on an outside random source.
+type c09Rand struct{}
+
+func (c09Rand) Read(p []byte) (int, error) {
+	for i := range p {
+		p[i] = byte(0x3c + i*7)
+	}
+	return len(p), nil
 }
 
 func TestC09SigAlg(t *testing.T) {
@@ -374,13 +409,18 @@ func TestC09SigAlg(t *testing.T) {
 	runPlain(t, col, "TestC09", func(fail func(*ev.Violation, any)) {
 		w := mustBuild(spec)
 		n, nt := 0, 0
-		for _, spn := range []int{0, 1, 2, 3, 4} {
+		for _, spn := range []int{0, 1, 2, 3, 4, 7} {
 			xmlb := xt.Write(spsim.NewAuthnReq("_sigalg", stdSP(spn).EntityID).Tree(plainStyle), plainStyle.W)
 			msg := base64.StdEncoding.EncodeToString(spsim.Deflate(xmlb))
 			for _, alg := range c09SigAlgs {
 				for blobName, blob := range c09SigBlobs() {
 					for _, rs := range []string{"", "&RelayState=rs"} {
 						for _, where := range []string{"query", "body"} {
+							blob := blob
+							if blob == "@dsa-valid" {
+								// what an SP holding the registered DSA key would send for this query
+								blob = c09DSASign("SAMLRequest="+qesc(msg)+rs+"&SigAlg="+qesc(alg), alg)
+							}
 							q := "SAMLRequest=" + qesc(msg) + rs + "&SigAlg=" + qesc(alg) + "&Signature=" + qesc(blob)
 							req := obs.HTTPReq{Method: "GET", Path: route(spec.IdP, "sso"), RawQuery: q}
 							if where == "body" {
@@ -394,6 +434,17 @@ func TestC09SigAlg(t *testing.T) {
 							}
 							if v := c09Do(w, req); v != nil {
 								fail(v, C09Case{Kind: "http", Spec: spec, Req: req, Note: fmt.Sprintf("sigalg matrix sp%d alg=%s blob=%s", spn, alg, blobName)})
+							}
+							if blobName == "dsa-valid" && spn == 7 && strings.Contains(alg, "dsa-sha") && !strings.Contains(alg, "ecdsa") && where == "query" {
+								// reach check: the DSA verification itself runs and succeeds for the genuine signature
+								if obs.Do(w.Handler, req).Status == 303 {
+									col.Count("sigalg-matrix/genuine-dsa-signature-accepted", 1)
+								} else {
+									col.Count("sigalg-matrix/genuine-dsa-signature-refused", 1)
+									if os.Getenv("VERIF_DEBUG") != "" {
+										fmt.Printf("DSA refused: alg=%s rs=%q body=%s\n", alg, rs, short(string(obs.Do(w.Handler, req).Body), 300))
+									}
+								}
 							}
 						}
 					}
@@ -524,6 +575,7 @@ func c09CertVariants() map[string]string {
 		"pem-b64":    base64.StdEncoding.EncodeToString([]byte(pemText)),
 		"ecdsa":      world.Key("sp-ecdsa").CertB64(),
 		"ed25519":    world.Key("sp-ed25519").CertB64(),
+		"dsa":        world.Key("sp-dsa").CertB64(),
 		"truncated":  a.CertB64()[:200],
 		"garbled":    a.CertB64()[:100] + "AAAAAAAA" + a.CertB64()[108:],
 		"not-base64": "<<<not base64>>>",
